@@ -134,6 +134,8 @@ def compiles(root, rel):
 # ---- driver ----------------------------------------------------------------------------------------------------------------
 def sweep(pid, analysed_functions, seed=0, max_auto=48, jobs=None):
     """returns a dict for the evidence file"""
+    max_auto = int(os.environ.get('VERIF_SWEEP_MAX', max_auto))
+    keep_examples = int(os.environ.get('VERIF_SWEEP_EXAMPLES', 12))
     jobs = jobs or min(16, (os.cpu_count() or 4))
     tmp = tempfile.mkdtemp(prefix='verif_selftest_%s_' % pid)
     res = {'seeds': {'run': 0, 'reported': 0, 'missed': []}, 'curated': {'run': 0, 'reported': 0, 'missed': [], 'not_applicable': 0},
@@ -215,7 +217,7 @@ def sweep(pid, analysed_functions, seed=0, max_auto=48, jobs=None):
                 if rc == 1:
                     res[key]['reported'] += 1
                 elif key == 'auto':
-                    if len(res['auto']['unreported_examples']) < 12:
+                    if len(res['auto']['unreported_examples']) < keep_examples:
                         res['auto']['unreported_examples'].append(name + (' [analysis-error]' if rc == 2 else ''))
                 else:
                     res[key]['missed'].append(name + (' [analysis-error]' if rc == 2 else ''))
